@@ -191,6 +191,10 @@ func vxC05Apply(fx *vxFix, h *vxC05Hist, s vxC05Sym, trail func() []vxC05Sym) (v
 			bad("C05 third-party change counted although nothing touched the PWM value", fmt.Sprintf("device showed %d at cycle start, fan2go had set %v; counter delta %d", devBefore, expBefore, delta))
 		}
 	}
+	if !haveExp && !h.Dirty && !h.PwmTouched && s.Kind != "noread" && delta != 0 {
+		// fan2go's first cycle: it has not set any value yet, so whatever the fan shows is not a third-party change
+		bad("C05 third-party change counted in the first cycle although nothing touched the PWM value", fmt.Sprintf("device showed %d at cycle start (the value found at start-up), fan2go had not set anything yet; counter delta %d", devBefore, delta))
+	}
 	h.Dirty = false
 	h.PwmTouched = false
 	return
